@@ -39,6 +39,11 @@ RULE = (
     "n | times: k, data sliced by limit: i, partial reached only on late iterations) across render, render-for, "
     "call, overridden block, block.super, include, include-for; out-profile text and data also draw lone "
     "surrogates, astral characters, combining marks, NUL and U+FFFF (bytes counted with surrogatepass), "
+    "(a3) per-item inner lengths under render-for / include-for / tablerow / for with the longest item first, "
+    "middle or last; locals spread over inheritance layers and nested blocks; names rebound many times inside "
+    "loops with nil / false / empty / small / large values and captures in every order (directly, in included and "
+    "rendered partials, macros, blocks); nests crossing both a carrying boundary and an inheritance boundary in "
+    "either order; limits swept below the measured consumption and close above it, "
     "(b) programs of the shared grammar-directed "
     "generator, (c) cyclic graphs of <= 4 templates over include / render / extends / macro / block / "
     "capture / for / tablerow edges, (d) acyclic partial chains of depth 1..7. Each program is "
@@ -475,7 +480,8 @@ def limit_values(kind: str, f: Facts, rng: random.Random) -> tuple[list[int], bo
             return [], False
         vals = {f.N - 1, f.N, f.N + 1, rng.randint(1, f.N), rng.randint(1, f.N)}
         if f.case.get("sweep"):
-            vals |= set(_sweep(max(1, f.N // 4), f.N - 1, 6))
+            # below the peak, and close above it (no error may be raised there)
+            vals |= set(_sweep(max(1, f.N // 4), f.N - 1, 6)) | {f.N + 8, f.N + 16, f.N + 48, 2 * f.N}
         return sorted(v for v in vals if v >= 1), f.N >= 2
     raise ValueError(kind)
 
@@ -647,10 +653,10 @@ def minimise(rn: Runner, prog: dict[str, Any], cls: str, ex: dict[str, Any]):
 def shards(tier: str, seed: int) -> list[dict[str, Any]]:
     # (kind, number of shards, cases per shard); thorough = 20 x the quick volume
     if tier == "quick":
-        plan = [("nest", 12, 48), ("ns", 6, 30), ("out", 6, 30), ("intr", 4, 45), ("vary", 3, 50), ("layer", 2, 50),
+        plan = [("nest", 12, 46), ("ns", 6, 26), ("out", 6, 28), ("intr", 4, 45), ("vary", 3, 64), ("layer", 4, 45),
                 ("shared", 2, 80), ("cycle", 2, 200), ("chain", 2, 160)]
     else:
-        plan = [("nest", 24, 580), ("ns", 6, 640), ("out", 6, 640), ("intr", 6, 600), ("vary", 6, 500), ("layer", 4, 500), ("shared", 4, 800),
+        plan = [("nest", 24, 580), ("ns", 6, 640), ("out", 6, 640), ("intr", 6, 600), ("vary", 6, 640), ("layer", 6, 600), ("shared", 4, 800),
                 ("cycle", 4, 2600), ("chain", 4, 1700)]
     specs: list[dict[str, Any]] = []
     for kind, n, per in plan:
@@ -675,6 +681,9 @@ def floors(tier: str) -> dict[str, int]:
         "item_nests_nonuniform": 40 * k,
         "set:longest_item_position": 3,
         "layer_programs_binding_in_several_contexts": 60 * k,
+        "rebind_programs_cycling_through_nil": 40 * k,
+        "rebinds_from_or_to_nil_observed": 2_000 * k,
+        "cross_nests_carried_and_inherited": 40 * k,
         "programs_with_lone_surrogate_output": 30 * k,
         "cycles_terminated": 400 * k,
         "write_hook_hits": 10_000 * k,
@@ -760,16 +769,24 @@ def _varying(rn: Runner, spec: dict[str, Any]) -> None:
     ctx = rn.ctx
     for j in range(spec["per"]):
         rng = random.Random(f"{spec['seed']}:vary:{spec['i']}:{j}")
-        by_item = j % 2 == 1
-        prog = (G.ItemGen(rng) if by_item else G.VaryGen(rng)).program()
+        by_item = j % 3 == 1
+        cross = j % 3 == 2
+        prog = (G.ItemGen(rng) if by_item else G.CrossGen(rng) if cross else G.VaryGen(rng)).program()
         case = G.emit(prog)
-        case["marks"] = True
+        # (templates that only extend carry no marker of their own: no marker cross-check)
+        case["marks"] = not cross
         case["sweep"] = True
         found = check_case(rn, case, rng, kinds=("huge", "loop"), modes=("sync", "async") if j % 2 == 0 else ("sync",))
         if found is None:
             continue
         ctx.count("vary_programs")
         f = Facts(rn, case)
+        if cross and f.ok and f.res.mon is not None:
+            kinds = set(f.res.mon.max_chain_kinds)
+            if kinds & {"block", "extends"} and kinds & {"render", "render-for", "include-for", "tablerow", "include"}:
+                # the largest nest runs through an inheritance boundary and a carrying one
+                ctx.count("cross_nests_carried_and_inherited")
+                ctx.seen("cross_nest_shapes", ">".join(k for k in f.res.mon.max_chain_kinds if k != "for"))
         if by_item and f.ok and f.M > f.C >= 2:
             ctx.count("item_nests_nonuniform")
             lens = [len(x) if isinstance(x, list) else -x for x in case["data"]["rows"]]
@@ -794,7 +811,8 @@ def _layers(rn: Runner, spec: dict[str, Any]) -> None:
     ctx = rn.ctx
     for j in range(spec["per"]):
         rng = random.Random(f"{spec['seed']}:layer:{spec['i']}:{j}")
-        prog = G.LayerGen(rng).program()
+        rebind = j % 2 == 1
+        prog = (G.RebindGen(rng) if rebind else G.LayerGen(rng)).program()
         case = G.emit(prog)
         case["sweep"] = True
         found = check_case(rn, case, rng, kinds=("huge", "ns"), modes=("sync", "async") if j % 3 == 0 else ("sync",))
@@ -803,7 +821,12 @@ def _layers(rn: Runner, spec: dict[str, Any]) -> None:
         ctx.count("layer_programs")
         f = Facts(rn, case)
         m = f.res.mon
-        if f.ok and m is not None and m.assign_depths and len(m.assign_depths) >= 2:
+        if f.ok and m is not None:
+            ctx.count("rebinds_observed", m.rebinds)
+            ctx.count("rebinds_from_or_to_nil_observed", m.rebinds_nil)
+            if rebind and m.rebinds_nil >= 10:
+                ctx.count("rebind_programs_cycling_through_nil")
+        if not rebind and f.ok and m is not None and m.assign_depths and len(m.assign_depths) >= 2:
             # assignments were made in at least two different contexts of one chain
             ctx.count("layer_programs_binding_in_several_contexts")
             ctx.mx("max:assign_context_depth", max(m.assign_depths))
